@@ -159,4 +159,26 @@ CHECKS = {
                 "the all-arrays part (small-scope: axis/bit-order bugs show "
                 "there).",
     },
+    "C10": {
+        "engine": "E-INPUT", "level": "exploration",
+        "technique": "deviation-bounded exhaustive enumeration: every "
+                     "truncation / byte edit / header-word edit (pairs in "
+                     "thorough) of valid buffers + all short byte strings",
+        "text": "Valid buffers are built by harness-side encoders (spec "
+                "encoder incl. layouts the package never emits, Pillow, "
+                "tobytes). 0 deviations: they must decode to the right "
+                "array. 1 deviation: every truncation length, every byte "
+                "position x byte alphabet (all 256 values in thorough), "
+                "every header word x boundary values and every bits value. "
+                "2 deviations (thorough): all pairs of header-word and "
+                "header-byte edits. Plus all byte strings of length <= 2 "
+                "and <= 6/8 over a 5-letter alphabet for six decoder "
+                "configurations. Each decode must return exactly the "
+                "requested shape/dtype or raise InvalidFormatError; "
+                "still-spec-valid compressed_segmentation buffers must "
+                "decode to the specified labels; a CPU-time watchdog "
+                "reports hangs.",
+        "note": "Chunks of at most 24 voxels; JPEG validity after mutation "
+                "is not judged (only shape/dtype or the documented error).",
+    },
 }
